@@ -139,7 +139,7 @@ def brute(obj, i):
     """the component get_by_id has to return, by a plain scan of the document as it is now (own list members, in order)"""
     for ms in type(obj).member_data_items_:
         v = getattr(obj, ms.get_name(), None)
-        if isinstance(v, list):
+        if isinstance(v, H.SEQ):
             for m in v:
                 if hasattr(m, "id") and m.id == i:
                     return m
